@@ -125,7 +125,10 @@ def gen_pokes(rng, f, base):
     return out
 
 
-def gen_framer(rng, f, name, sched, auxnames, others, slaves, is_aux=False):
+def gen_framer(rng, f, name, sched, auxnames, others, slaves, is_aux=False, condpool=None):
+    """condpool: list of aux names reserved for conditional-aux clauses (each used at most once in the
+    whole program and never as a plain aux: sharing one original between clauses is an undocumented corner)"""
+    condpool = condpool if condpool is not None else []
     nfr = rint(rng, f["nframes"]) if not is_aux else rng.randint(1, 3)
     frames = gen_forest(rng, f, "f" if not is_aux else "x", nfr)
     names = [x["name"] for x in frames]
@@ -165,8 +168,8 @@ def gen_framer(rng, f, name, sched, auxnames, others, slaves, is_aux=False):
                     if needs[0]["frame"] is None:
                         needs[0]["frame"] = "me!"
             clauses.append(P.go(far, needs))
-        if auxnames and not is_aux and rng.random() < f["p_condaux"]:
-            a = rng.choice(auxnames)
+        if condpool and not is_aux and rng.random() < f["p_condaux"]:
+            a = condpool.pop()
             clauses.insert(rng.randint(0, len(clauses)),
                            {"v": "aux", "aux": a, "needs": [gen_need(rng, f, allow_clock=False)]})
         st += clauses
@@ -202,9 +205,16 @@ def gen_program(rng, f):
     mains = ["m%d" % i for i in range(nm)]
     slaves = ["s%d" % i for i in range(ns)]
     framers = []
+    condpool = []
+    plainaux = list(auxnames)
+    if f["p_condaux"] and auxnames:
+        ncond = max(1, int(round(len(auxnames) * (0.5 if f["p_aux"] else 1.0))))
+        condpool = auxnames[:ncond]
+        plainaux = auxnames[ncond:]
+        rng.shuffle(condpool)
     for i, m in enumerate(mains):
         sched = "inactive" if rng.random() < f["p_inactive"] else "active"
-        framers.append(gen_framer(rng, f, m, sched, auxnames, [x for x in mains if x != m], slaves))
+        framers.append(gen_framer(rng, f, m, sched, plainaux, [x for x in mains if x != m], slaves, condpool=condpool))
     for s in slaves:
         fs = dict(f)
         fs.update(p_aux=0, p_condaux=0, p_bids=0, p_fiat=0)
